@@ -247,6 +247,30 @@ func init() {
 		in.uniques = append(in.uniques, uniqueEnt{t, a[0], l})
 		return StructV{l}
 	})
+	sortSlice := func(in *Interp, fr *frame, fn *ssa.Function, a []Value, site string) Value {
+		iv := a[0].(IfaceV)
+		gs, ok := iv.v.(GSlice)
+		if !ok {
+			panic(unsupported("sort.Slice on non-generic slice"))
+		}
+		less := func(i, j int) bool {
+			r := in.call(fr, a[1], []Value{I64(int64(i)), I64(int64(j))}, nil, site).(*Term)
+			return in.e.Branch(r, "sort.less:"+site)
+		}
+		swap := func(i, j int) {
+			x, y := load(gs.arr.elems[gs.off+i]), load(gs.arr.elems[gs.off+j])
+			store(gs.arr.elems[gs.off+i], y)
+			store(gs.arr.elems[gs.off+j], x)
+		}
+		for i := 1; i < gs.len; i++ {
+			for j := i; j > 0 && less(j, j-1); j-- {
+				swap(j, j-1)
+			}
+		}
+		return nil
+	}
+	reg("sort.Slice", sortSlice)
+	reg("sort.SliceStable", sortSlice)
 	// math/rand: a draw is an arbitrary value in the documented range
 	reg("math/rand.Int", func(in *Interp, fr *frame, fn *ssa.Function, a []Value, site string) Value {
 		name := in.e.freshName("rand.Int")
